@@ -2,7 +2,7 @@
 # Run before committing: /repo must be clean, all three quick checks must exit 0 on it, MANIFEST and evidence must validate.
 set -u
 ROOT="$(cd "$(dirname "$0")/.." && pwd)"
-if [ -n "$(git -C /repo status --porcelain --untracked-files=no)" ]; then echo "precommit: /repo has local changes"; exit 1; fi
+if [ -n "$(git -C /repo status --porcelain)" ]; then echo "precommit: /repo has local changes or untracked files"; exit 1; fi
 cd "$ROOT" || exit 2
 rm -f replays/*.json
 for p in C15 C16 C20; do
